@@ -2878,9 +2878,6 @@ func (db *DB) snapshotPosition(ctx context.Context) (*snapshotReadPosition, erro
 // the given position. db.syncState is read without db.mu because every writer
 // mutates it while holding execSem, which the caller also holds.
 func (db *DB) snapshotWALEndOffset(pos ltx.Pos) (int64, error) {
-	if db.syncState.lastSyncedWALOffset > 0 {
-		return db.syncState.lastSyncedWALOffset, nil
-	}
 	if pos.TXID == 0 {
 		return WALHeaderSize, nil
 	}
@@ -2912,6 +2909,12 @@ func (db *DB) snapshotWALEndOffset(pos ltx.Pos) (int64, error) {
 		return WALHeaderSize, nil
 	}
 
+	// The cached offset belongs to the WAL the position was read from; it is
+	// only used once the salts above show that this is still the live WAL
+	// (a checkpoint call that failed half-way leaves the two apart).
+	if db.syncState.lastSyncedWALOffset > 0 {
+		return db.syncState.lastSyncedWALOffset, nil
+	}
 	return dec.Header().WALOffset + dec.Header().WALSize, nil
 }
 
